@@ -457,7 +457,10 @@ func (a *AEAD) op() string {
 func (a *AEAD) failNow() bool {
 	if a.FailNext > 0 {
 		a.FailNext--
-		return a.FailNext == 0
+		if a.FailNext == 0 {
+			a.W.Emit(Event{"e": "ifault", "p": a.Proc, "what": "aead"})
+			return true
+		}
 	}
 	return false
 }
